@@ -494,6 +494,9 @@ func (x *Exec) merge(g *Term, a, b Value) Value {
 		}
 		x.fail("merge: different functions")
 	case *IfaceV:
+		if _, isG := b.(*IfaceGV); isG {
+			return &IfaceGV{G: g, A: a, B: b}
+		}
 		bv := b.(*IfaceV)
 		if av.T == nil && bv.T == nil {
 			return av
